@@ -39,10 +39,22 @@ pub enum Guarded<T> {
 }
 
 /// Run `f` on a big-stack thread under catch_unwind with a wall-clock limit.
+pub static INLINE: std::sync::atomic::AtomicBool = std::sync::atomic::AtomicBool::new(false);
+
 pub fn guarded<T: Send + 'static>(
     limit: Duration,
     f: impl FnOnce() -> T + Send + 'static,
 ) -> Guarded<T> {
+    if INLINE.load(std::sync::atomic::Ordering::Relaxed) {
+        // single-threaded mode: the whole process uses one RandomState key pair (pinned by strace in C13)
+        return match std::panic::catch_unwind(std::panic::AssertUnwindSafe(f)) {
+            Ok(v) => Guarded::Done(v),
+            Err(_) => {
+                let (msg, at) = take_panic();
+                Guarded::Panic { msg, at }
+            }
+        };
+    }
     let (tx, rx) = mpsc::channel();
     let builder = std::thread::Builder::new().stack_size(256 * 1024 * 1024);
     let handle = builder
